@@ -3,42 +3,53 @@
   step order of drawStackingContext (draw.go:209-346), on an abstract laid-out box tree.
 
   A box carries what the dispatch looks at: whether it is positioned, its z-index (none = auto),
-  whether it is floated, whether it creates a context for another reason (opacity < 1, a transform,
-  overflow ≠ visible), whether it is block-level / an inline-block, whether it has line-box children
+  whether it is floated, whether it has opacity < 1 / a transform / overflow ≠ visible (each creates a
+  context and a group), whether it is block-level / an inline-block, whether it has line-box children
   (inline content painted at step 7), and its children.
 
-  Output: the list of paint events (box id, layer).  Building the StackingContext and drawing it are fused:
+  Output: the list of events (box id, layer): the paints (background, border, content, outline) and the
+  group brackets (opacity group, transform scope, overflow clip) they are issued in.  Building the StackingContext and drawing it are fused:
   a child context is represented by its z-index and the events drawing it produces.
 -/
 namespace WR.C16
 
 inductive Layer where
   | background | border | content | outline
+  | groupOpen | groupClose      -- opacity < 1: NewGroup … DrawWithOpacity
+  | xformOpen | xformClose      -- transform: Transform … end of the context's OnNewStack
+  | clipOpen | clipClose        -- overflow ≠ visible: inner OnNewStack with the padding-box clip
   deriving DecidableEq, Repr
 
 abbrev PEv := Nat × Layer
 
+/-- what the dispatch and the drawing look at -/
+structure BProps where
+  positioned : Bool       -- position ≠ static
+  z : Option Int          -- none = auto
+  floated : Bool
+  opacity : Bool          -- opacity < 1
+  transform : Bool        -- transform ≠ none
+  overflow : Bool         -- overflow ≠ visible
+  blockLevel : Bool
+  inlineBlock : Bool
+  hasLines : Bool         -- its children are line boxes (inline content painted at step 7)
+  deriving DecidableEq, Repr
+
 inductive Box where
-  | mk (id : Nat) (positioned : Bool) (z : Option Int) (floated : Bool) (ctx : Bool)
-       (blockLevel : Bool) (inlineBlock : Bool) (hasLines : Bool) (children : List Box)
+  | mk (id : Nat) (pr : BProps) (children : List Box)
   deriving Repr
 
 namespace Box
-def id : Box → Nat | mk i _ _ _ _ _ _ _ _ => i
-def positioned : Box → Bool | mk _ p _ _ _ _ _ _ _ => p
-def z : Box → Option Int | mk _ _ z _ _ _ _ _ _ => z
-def floated : Box → Bool | mk _ _ _ f _ _ _ _ _ => f
-def ctx : Box → Bool | mk _ _ _ _ c _ _ _ _ => c
-def blockLevel : Box → Bool | mk _ _ _ _ _ b _ _ _ => b
-def inlineBlock : Box → Bool | mk _ _ _ _ _ _ i _ _ => i
-def hasLines : Box → Bool | mk _ _ _ _ _ _ _ l _ => l
-def children : Box → List Box | mk _ _ _ _ _ _ _ _ c => c
+def id : Box → Nat | mk i _ _ => i
+def pr : Box → BProps | mk _ p _ => p
+def children : Box → List Box | mk _ _ c => c
+end Box
+
 /-- `absoluteAndZIndex || opacity < 1 || transform || overflow != visible` -/
-def makesContext (b : Box) : Bool := (b.positioned && b.z.isSome) || b.ctx
+def BProps.makesContext (p : BProps) : Bool := (p.positioned && p.z.isSome) || p.opacity || p.transform || p.overflow
 /-- StackingContext.zIndex: auto counts as 0, and z-index applies to positioned boxes only
     (`applies := position != static || IsFlexItem || IsGridItem`; flex and grid items are outside this model) -/
-def zIndex (b : Box) : Int := if b.positioned then b.z.getD 0 else 0
-end Box
+def BProps.zIndex (p : BProps) : Int := if p.positioned then p.z.getD 0 else 0
 
 /-- a child context: (z-index, what drawing it paints) -/
 abbrev CCtx := Int × List PEv
@@ -58,31 +69,42 @@ structure Acc where
   blocks : List Nat := []              -- step 4: in-flow non-positioned block-level boxes
   floats : List (List PEv) := []       -- step 5
   blocksAndCells : List Nat := []      -- step 7: boxes whose line children are painted (ids with hasLines)
+  kept : List Nat := []                -- the boxes left in the context's normal tree, pre-order (drawOutlines walks them)
   deriving Repr
 
 def insertAt {α : Type} (l : List α) (i : Nat) (x : α) : List α := l.take i ++ x :: l.drop i
 
 /-- drawStackingContext for a context whose lists are known.
     `isBlock`: the context's box is a Block/InlineBlock/... (step 2 paints its background and border).
-    `lines`: ids (in order: the box itself, then blocksAndCells) whose inline content is painted at step 7. -/
-def drawCtx (id : Nat) (isBlock : Bool) (neg zero pos : List CCtx) (blocks : List Nat) (floats : List (List PEv))
-    (lines : List Nat) : List PEv :=
-  (if isBlock then [(id, .background), (id, .border)] else [])
+    `lines`: ids (in order: the box itself, then blocksAndCells) whose inline content is painted at step 7.
+    `kept`: the in-flow descendants left in the box's tree (step 10 paints the box's outline, then theirs).
+    Opacity: everything (outlines included) goes to a group that is composited last; transform: applied
+    before step 2, until the end; overflow: steps 3-9 are clipped, the background/border (step 2) and the
+    outlines (step 10) are not. -/
+def drawCtx (id : Nat) (pr : BProps) (neg zero pos : List CCtx) (blocks : List Nat) (floats : List (List PEv))
+    (lines kept : List Nat) : List PEv :=
+  (if pr.opacity then [(id, Layer.groupOpen)] else [])
+  ++ (if pr.transform then [(id, Layer.xformOpen)] else [])
+  ++ (if pr.blockLevel || pr.inlineBlock then [(id, .background), (id, .border)] else [])
+  ++ (if pr.overflow then [(id, Layer.clipOpen)] else [])
   ++ (neg.flatMap (·.2))
   ++ (blocks.flatMap fun b => [(b, Layer.background), (b, Layer.border)])
   ++ floats.flatten
   ++ (lines.map fun b => (b, Layer.content))
   ++ (zero.flatMap (·.2))
   ++ (pos.flatMap (·.2))
-  ++ [(id, .outline)]
+  ++ (if pr.overflow then [(id, Layer.clipClose)] else [])
+  ++ ((id :: kept).map fun b => (b, Layer.outline))
+  ++ (if pr.transform then [(id, Layer.xformClose)] else [])
+  ++ (if pr.opacity then [(id, Layer.groupClose)] else [])
 
 /-- NewStackingContext: partition by sign, stable sort of the negative and positive lists, then draw -/
-def finishCtx (b : Box) (acc : Acc) (own : List CCtx) : List PEv :=
+def finishCtx (id : Nat) (pr : BProps) (acc : Acc) (own : List CCtx) : List PEv :=
   let neg := sortZ (own.filter (·.1 < 0))
   let zero := own.filter (·.1 == 0)
   let pos := sortZ (own.filter (·.1 > 0))
-  drawCtx b.id (b.blockLevel || b.inlineBlock) neg zero pos acc.blocks acc.floats
-    ((if b.hasLines then [b.id] else []) ++ acc.blocksAndCells)
+  drawCtx id pr neg zero pos acc.blocks acc.floats
+    ((if pr.hasLines then [id] else []) ++ acc.blocksAndCells) acc.kept
 
 mutual
   /-- NewStackingContextFromBox(box, page, childContexts) fused with drawStackingContext.
@@ -90,13 +112,12 @@ mutual
       `shared = some cc`: a "fake" context (positioned z-auto box, float, inline-block): the sub-contexts found
       inside go to the caller's list `cc`, which is returned extended. -/
   def ctxOfBox : Box → Option (List CCtx) → List PEv × List CCtx
-    | .mk id p z f c bl ib hl children, shared =>
-      let b := Box.mk id p z f c bl ib hl children
+    | .mk id pr children, shared =>
       let start : Acc := { childContexts := shared.getD [] }
       let acc := dispatchChildren children start
       match shared with
-      | none => (finishCtx b acc acc.childContexts, [])
-      | some _ => (finishCtx b acc [], acc.childContexts)
+      | none => (finishCtx id pr acc acc.childContexts, [])
+      | some _ => (finishCtx id pr acc [], acc.childContexts)
 
   /-- dispatchChildren over the children list (boxes kept in the normal tree are not returned: only the
       accumulated lists matter for painting) -/
@@ -106,30 +127,30 @@ mutual
 
   /-- the `dispatch` closure -/
   def dispatch : Box → Acc → Acc
-    | .mk id p z f c bl ib hl children, acc =>
-      let b := Box.mk id p z f c bl ib hl children
-      if b.makesContext then
+    | .mk id pr children, acc =>
+      if pr.makesContext then
         -- a real context: appended to the child contexts
-        let (evs, _) := ctxOfBox b none
-        { acc with childContexts := acc.childContexts ++ [(b.zIndex, evs)] }
-      else if p then
+        let (evs, _) := ctxOfBox (.mk id pr children) none
+        { acc with childContexts := acc.childContexts ++ [(pr.zIndex, evs)] }
+      else if pr.positioned then
         -- positioned, z-index auto: fake context inserted at the index before its descendants' contexts
         let index := acc.childContexts.length
-        let (evs, cc) := ctxOfBox b (some acc.childContexts)
+        let (evs, cc) := ctxOfBox (.mk id pr children) (some acc.childContexts)
         { acc with childContexts := insertAt cc index (0, evs) }
-      else if f then
-        let (evs, cc) := ctxOfBox b (some acc.childContexts)
+      else if pr.floated then
+        let (evs, cc) := ctxOfBox (.mk id pr children) (some acc.childContexts)
         { acc with childContexts := cc, floats := acc.floats ++ [evs] }
-      else if ib then
+      else if pr.inlineBlock then
         -- kept in the tree, drawn with the inline content of its line: out of this model's scope
-        let (_, cc) := ctxOfBox b (some acc.childContexts)
+        let (_, cc) := ctxOfBox (.mk id pr children) (some acc.childContexts)
         { acc with childContexts := cc }
       else
         let bi := acc.blocks.length
         let ci := acc.blocksAndCells.length
-        let acc' := dispatchChildren children acc
-        let acc'' := if bl then { acc' with blocks := insertAt acc'.blocks bi id } else acc'
-        if bl && hl then { acc'' with blocksAndCells := insertAt acc''.blocksAndCells ci id } else acc''
+        -- the box stays in the tree: drawOutlines reaches it before its children
+        let acc' := dispatchChildren children { acc with kept := acc.kept ++ [id] }
+        let acc'' := if pr.blockLevel then { acc' with blocks := insertAt acc'.blocks bi id } else acc'
+        if pr.blockLevel && pr.hasLines then { acc'' with blocksAndCells := insertAt acc''.blocksAndCells ci id } else acc''
 end
 
 /-- drawPage → NewStackingContextFromPage: the root element's box is unconditionally a context -/
